@@ -233,7 +233,7 @@ PROPS["C17"] = dict(
     level="fault_enumeration",
     engine="E4+E5",
     parts=[dict(bin="e4_fault", timeout_s={"quick": 900, "thorough": 7200}), dict(bin="e5_proto", shards=4)],
-    rule="fault case = (builder kind, n, fault): for every builder kind (function/filter, online/offline store, FuseLge3Shards, FuseLge3NoShards with 64-bit signatures, FuseLge3FullSigs without hint) and n in {0,1,2,5,16} a fault-free reference build determines the number P of passes over the sources (retries after unsolvable shards make P > 1 for most small key sets); then EVERY (pass p, index i <= n) of the key source, every (p, i < n) of the value source and every rewind of either source is failed in turn (first 4 passes (thorough 8) and the last one), plus one pair of faults; the same for keys read as lines through the crate's LineLender over a reader that fails at EVERY byte offset (line boundaries, inside lines, end of input) of every pass; duplicate case = (kind, n in {2,3,5,12}, EVERY pair placement (i,j), triples, all-equal, threads 1/3) with check_dups(true); thorough adds one duplicate inside 10 000 and 120 000 keys; E5 part: deadlock freedom of the par_solve model when shards fail; non-trivial = n >= 2",
+    rule="fault case = (builder kind, n, fault): for every builder kind (function/filter, online/offline store, FuseLge3Shards, FuseLge3NoShards with 64-bit signatures, FuseLge3FullSigs without hint) and n in {0,1,2,5,16} a fault-free reference build determines the number P of passes over the sources (retries after unsolvable shards make P > 1 for most small key sets); then EVERY (pass p, index i <= n) of the key source, every (p, i < n) of the value source and every rewind of either source is failed in turn (first 4 passes (thorough 8) and the last one), plus one pair of faults; the same for keys read as lines through the crate's LineLender (two builder seeds: one whose first attempt succeeds, one that needs three passes) over a reader that fails at EVERY byte offset of every pass and at every seek back to the start (line boundaries, inside lines, end of input) of every pass; duplicate case = (kind, n in {2,3,5,12}, EVERY pair placement (i,j), triples, all-equal, threads 1/3) with check_dups(true); thorough adds one duplicate inside 10 000 and 120 000 keys; E5 part: deadlock freedom of the par_solve model when shards fail; non-trivial = n >= 2",
     alphabet="fault-injecting RewindableIoLender for keys and values (marker errors), duplicate key placements",
     bound={"quick": "n <= 16, first 4 passes + last; duplicate keys at n <= 12 (every pair) and at 200 000 keys (4 shards) with 1 and 2 solver threads", "thorough": "n <= 40, first 8 passes + last, duplicate sets at 10 000, 120 000, 200 000 and 800 000 keys (16 shards)"},
     oracle="the call returns within the watchdog; if a fault was delivered the result is Err and its chain contains the injected marker, never Ok; if the fault position was never reached the result is Ok and every key maps to its value; duplicates: Err(DuplicateKey) after exactly 4 (at least 4 above the sharding threshold, where other transient failures add attempts) signature passes (counted by the lender), never Ok",
